@@ -997,7 +997,7 @@ func clientDoH(s *task, n *simnet.Net, items []*item) {
 
 				return
 			}
-			if len(jr.Question) != 1 || !strings.EqualFold(jr.Question[0].Name, it.msg.Question[0].Name) ||
+			if len(jr.Question) != 1 || jr.Question[0].Name != it.msg.Question[0].Name ||
 				jr.Question[0].Type != it.msg.Question[0].Qtype {
 				s.Failf("C01/wrong-question", tr+": response carries a question the request did not carry",
 					"item id=%d: request %s, response %+v", it.id, questionOf(it), jr.Question)
@@ -1007,11 +1007,11 @@ func clientDoH(s *task, n *simnet.Net, items []*item) {
 			if e.outcome == "answer" {
 				var want []string
 				for _, rr := range e.an {
-					want = append(want, fmt.Sprintf("%s/%d", strings.ToLower(rr.Header().Name), rr.Header().Rrtype))
+					want = append(want, fmt.Sprintf("%s/%d", rr.Header().Name, rr.Header().Rrtype))
 				}
 				var got []string
 				for _, a := range jr.Answer {
-					got = append(got, fmt.Sprintf("%s/%d", strings.ToLower(a.Name), a.Type))
+					got = append(got, fmt.Sprintf("%s/%d", a.Name, a.Type))
 				}
 				sort.Strings(want)
 				sort.Strings(got)
